@@ -88,6 +88,7 @@ type cmdTracer struct {
 	d2hBytes  int64 // timing only: bytes carried by completed MemCopyD2HReq
 	sabotage  bool
 	flipped   int64
+	rec       *vlib.ChildRecorder
 }
 
 func (t *cmdTracer) StartTask(task tracing.Task) {
@@ -111,7 +112,7 @@ func (t *cmdTracer) StartTask(task tracing.Task) {
 	}
 }
 
-func (t *cmdTracer) StepTask(tracing.Task)         {}
+func (t *cmdTracer) StepTask(tracing.Task)          {}
 func (t *cmdTracer) AddMilestone(tracing.Milestone) {}
 
 func (t *cmdTracer) EndTask(task tracing.Task) {
@@ -135,7 +136,11 @@ func (t *cmdTracer) EndTask(task tracing.Task) {
 			// RawData) holds what the DMA engine read from device memory and
 			// the driver has not yet decoded it into the application's
 			// destination. Flip bits in what was read back.
-			t.flipped += int64(sabotageBuffer(r.DstBuffer))
+			n := int64(sabotageBuffer(r.DstBuffer))
+			if t.flipped == 0 && n > 0 && t.rec != nil {
+				t.rec.Note("sabotaged", len(r.DstBuffer))
+			}
+			t.flipped += n
 		}
 	}
 }
@@ -318,7 +323,7 @@ type wrapBench struct {
 	oracle string
 }
 
-func (w *wrapBench) SelectGPU(g []int)  { w.inner.SelectGPU(g) }
+func (w *wrapBench) SelectGPU(g []int) { w.inner.SelectGPU(g) }
 func (w *wrapBench) SetUnifiedMemory() { w.inner.SetUnifiedMemory() }
 
 // EnableVerification is what runner.Run calls before Run() under -verify for
@@ -416,7 +421,7 @@ func childMain() {
 
 	r := new(runner.Runner).Init()
 	d := r.Driver()
-	tr := &cmdTracer{kind: map[string]string{}, d2hReqs: map[string]*protocol.MemCopyD2HReq{}, sabotage: cs.Sabotage}
+	tr := &cmdTracer{kind: map[string]string{}, d2hReqs: map[string]*protocol.MemCopyD2HReq{}, sabotage: cs.Sabotage, rec: rec}
 	tracing.CollectTrace(d, tr)
 
 	a := arch.GCN3
